@@ -1,6 +1,7 @@
 (* extraction of the C13 / C03 executable models; ExtrOcamlBasic only *)
 Require Extraction.
 Require Import ExtrOcamlBasic.
-Require Import Base Overlap Suggestion Rebase.
+Require Import Base Overlap Suggestion Rebase C13Callers.
 Extraction Language OCaml.
-Extraction "../ocaml/gen/c13_model.ml" run_remove_overlaps run_apply run_rebase.
+Extraction "../ocaml/gen/c13_model.ml" run_remove_overlaps run_apply run_rebase
+  run_wasm_lint run_fix_all run_currency.
